@@ -248,6 +248,20 @@ class LineBreak(SpanToken):
         self.content = match.group(1)
         self.soft = not self.content.startswith(('  ', '\\'))
 
+    @classmethod
+    def find(cls, string):
+        matches = []
+        for match in cls.pattern.finditer(string):
+            if match.group(1) == '\\':
+                # a backslash that is itself escaped ("\\\\" + line ending) does not make a hard break
+                start = match.start()
+                while start > 0 and string[start - 1] == '\\':
+                    start -= 1
+                if (match.start() - start) % 2 == 1:
+                    match = cls.pattern.match(string, match.end() - 1)
+            matches.append(match)
+        return matches
+
 
 class RawText(SpanToken):
     """
